@@ -1,3 +1,13 @@
+#![feature(sized_hierarchy)]
+#![feature(allocator_api)]
+#![allow(unused_imports, unused_variables, dead_code, unused_mut, unused_parens, unused_braces, non_snake_case)]
+use vstd::prelude::*;
+use vstd::std_specs::ops::*;
+use vstd::std_specs::cmp::*;
+use vstd::float::*;
+use vstd::std_specs::iter::IteratorSpec;
+verus! {
+// ---- prelude fragment: floats.rs ----
 // Floating point, layer 1 ("uninterpreted" mode of DESIGN.md 3.2): every f64 operator instance the
 // language can produce is linked to ONE total, deterministic, otherwise unknown function of the
 // operand values.  Nothing about IEEE-754 is assumed here.
@@ -111,3 +121,103 @@ pub assume_specification [core::cmp::Ordering::is_lt] (o: core::cmp::Ordering) -
 pub assume_specification [core::cmp::Ordering::is_le] (o: core::cmp::Ordering) -> (r: bool) ensures r == (o != core::cmp::Ordering::Greater);
 pub assume_specification [core::cmp::Ordering::is_gt] (o: core::cmp::Ordering) -> (r: bool) ensures r == (o == core::cmp::Ordering::Greater);
 pub assume_specification [core::cmp::Ordering::is_ge] (o: core::cmp::Ordering) -> (r: bool) ensures r == (o != core::cmp::Ordering::Less);
+
+// ---- prelude fragment: slice_state.rs ----
+// R6: abstraction of the sliced-away iteration body.  The solver state (cumulative regrets,
+// cumulative strategies, cached draws) is an opaque ghost value; one execution of the abstracted
+// statements of iteration `it` maps state s to step_state(s, it) -- an uninterpreted function, so
+// what is proved holds for EVERY deterministic body (for the sampled methods: under fixed draws,
+// which is the premise of the property).  regs_of(s) are the two per-player bounds the body reports.
+pub struct St { pub g: Ghost<int> }
+pub uninterp spec fn step_state(s: int, it: u64) -> int;
+pub uninterp spec fn regs_of(s: int) -> (f64, f64);
+pub open spec fn state_after(s0: int, k: nat) -> int decreases k {
+    if k == 0 { s0 } else { step_state(state_after(s0, (k - 1) as nat), k as u64) }
+}
+// "the total regret bound after this iteration is strictly below r"
+pub open spec fn below(s: int, r: f64) -> bool { flt(fmaxf(regs_of(s).0, regs_of(s).1), r) }
+#[verifier::external_body]
+pub fn __init_state() -> (st: St) { unimplemented!() }
+// one execution of the abstracted statements; writes the bounds into `regs`
+#[verifier::external_body]
+pub fn __abs_iteration(st: &mut St, it: u64, regs: &mut [f64; 2])
+    ensures final(st).g@ == step_state(old(st).g@, it),
+            (final(regs)[0], final(regs)[1]) == regs_of(final(st).g@),
+{ unimplemented!() }
+pub uninterp spec fn strats_of(s: int) -> [Box<[f64]>; 2];
+#[verifier::external_body]
+pub fn __abs_final_strats(st: &St) -> (r: [Box<[f64]>; 2])
+    ensures r == strats_of(st.g@),
+{ unimplemented!() }
+// the (arbitrary) initial solver state
+pub uninterp spec fn __s0() -> int;
+
+#[verifier::external_body] pub struct RegretParams { }
+
+// ---- extracted from src/solve/vanilla.rs: fn solve_generic_multi ----
+pub fn solve_generic_multi__scope_body(iter: u64, max_reg: f64, regs: &mut [f64; 2], params: &RegretParams)
+    requires
+        old(regs)[0] == finf() && old(regs)[1] == finf(),
+    ensures
+        exists|k: nat| k <= iter
+            && (forall|j: nat| 1 <= j < k ==> !below(state_after(__s0(), j), max_reg))
+            && (k < iter ==> k >= 1 && below(state_after(__s0(), k), max_reg))
+            && (k == 0 ==> final(regs)[0] == finf() && final(regs)[1] == finf())
+            && (k > 0 ==> (final(regs)[0], final(regs)[1]) == regs_of(state_after(__s0(), k))), // @ob C09.V.first_below.returns_state_k
+{
+broadcast use fl;
+proof { ax_obeys(); }
+let mut __st = __init_state();
+proof { assume(__st.g@ == __s0()); }
+let ghost s0 = __st.g@;
+let ghost mut k: nat = 0;
+
+        
+        
+        
+        for it in r: 1..=iter 
+invariant_except_break
+    k == r.index@,
+    forall|j: nat| 1 <= j <= k ==> !below(state_after(s0, j), max_reg),
+invariant
+    __st.g@ == state_after(s0, k),
+    k <= iter,
+    k == 0 ==> regs[0] == finf() && regs[1] == finf(),
+    k > 0 ==> (regs[0], regs[1]) == regs_of(__st.g@),
+ensures
+    forall|j: nat| 1 <= j < k ==> !below(state_after(s0, j), max_reg), // @ob C09.V.first_below.no_earlier_stop
+    k < iter ==> k >= 1 && below(state_after(s0, k), max_reg), // @ob C09.V.first_below.stops_only_below
+{
+broadcast use fl;
+proof { ax_obeys(); k = k + 1; }
+
+            // compute threadding threshold
+            
+            
+            // send threshold to threads for computation
+            
+            
+            // search full from there
+            
+            // the frontier and cached payoffs only describe this iteration
+            
+            
+            
+            __abs_iteration(&mut __st, it, regs);
+            let reg_one = regs[0]; let reg_two = regs[1];
+            if f64::max(reg_one, reg_two) < max_reg {
+                break;
+            }
+        }
+    }
+
+
+// vacuity canary: must be REJECTED by the verifier (an inconsistent axiom set would accept it)
+pub proof fn __canary_must_fail()
+    ensures false, // @ob __canary
+{
+    broadcast use fl; ax_obeys();
+}
+
+} // verus!
+fn main() {}
